@@ -31,3 +31,13 @@ pub mod solidadapter;
 #[cfg(feature = "sqlitedbadapter")]
 pub mod sqliteadapter;
 mod utils;
+
+/// Read-only re-exports for the verification harness (only with `--cfg melda_verif`)
+#[cfg(melda_verif)]
+pub mod verif {
+    pub use crate::revision::Revision;
+    pub use crate::revisiontree::RevisionTree;
+    pub use crate::utils::{
+        apply_diff_patch, digest_object, flatten, make_diff_patch, merge_arrays, unflatten,
+    };
+}
